@@ -624,3 +624,12 @@ Proof. repeat split; reflexivity. Qed.
 
 Lemma typed_rt_plain_word : forall k s, key_ok k = true -> plain_word s = true -> roundtrip k (VStr s) = Ok (k, CStr s).
 Proof. intros k s Hk Hs. apply typed_rt_str; [exact Hk|]. apply plain_word_safe; exact Hs. Qed.
+
+(* the unrestricted statement over the supported scalar types, and its refutation *)
+Definition typed_rt_statement : Prop :=
+  forall k v, plain_key k = true -> supported v = true -> roundtrip k v = Ok (k, cls_of v).
+
+Lemma typed_rt_false : ~ typed_rt_statement.
+Proof.
+  intro H. specialize (H "out_dir"%string (VStr "None") eq_refl eq_refl). vm_compute in H. discriminate.
+Qed.
